@@ -690,6 +690,11 @@ func c02ErrorDiscipline(c *Ctx) {
 		}
 	}
 	reach := c.reachableFrom(roots...)
+	// the callers that drive a whole transfer on the client and on the two servers (only these functions themselves:
+	// what they call besides the transfer layer is dialog / argument code with its own conventions)
+	for _, n := range []string{"TrzszFilter.downloadFiles", "TrzszFilter.uploadFiles", "recvFiles", "sendFiles"} {
+		reach[c.fn(n)] = true
+	}
 	nCalls := 0
 	for _, f := range c.AllFns {
 		if !reach[f] {
